@@ -2,7 +2,7 @@
 CHECK = {'level': 'exploration',
  'rule': 'rapidcheck generates a loop (1-5 items, 40% spelled with capitals, x 0-8 packets, 25% the scalar loop, 15% with identical packets, 4% already destroyed through a second handle) and a '
          'script of up to 25 iterator calls drawn from next(new packet | reused packet holding extra items | NULL), update(subset of items), update(packet with '
-         'a foreign item at a generated position: an item of another loop, a name in no loop, or a name differing from one of the loop's own in its last character only), update(empty packet), remove, and a failing call on another part of the CIF (8 kinds, among them cif_loop_get_packets through a handle on a loop that no longer exists) -- in any order, including life-cycle violations -- ended by close or abort and '
+         'a foreign item at a generated position: an item of another loop, a name in no loop, or a name differing from one of the loop items in its last character only), update(empty packet), remove, and a failing call on another part of the CIF (8 kinds, among them cif_loop_get_packets through a handle on a loop that no longer exists) -- in any order, including life-cycle violations -- ended by close or abort and '
          'followed by ordinary operations; non-trivial = at least one successful update/remove and two next calls, or at least one life-cycle violation; '
          'distinct = hash of (loop, script, ending)',
  'assumptions': ['delivery order is unspecified: delivered packets are matched to undelivered model packets by content',
